@@ -176,18 +176,23 @@ class Run:
 
     # ------------------------------------------------------------------ Rust harness
     def cargo_build(self, binname, release=False, features=()):
+        """build one harness binary against /repo's current tree.  A non-default feature set gets
+        its own target directory so that alternating builds do not recompile minijinja each time."""
         cmd = ["cargo", "build", "--offline", "--bin", binname]
         if release:
             cmd.append("--release")
+        target = CARGO_TARGET
+        env = dict(ENV)
         if features:
             cmd += ["--features", ",".join(features)]
-        lock = os.path.join(HARNESS, "Cargo.lock")
-        rc, out, err = sh(cmd, cwd=HARNESS, timeout=3000)
+            target = CARGO_TARGET + "-" + "-".join(sorted(features))
+            env["CARGO_TARGET_DIR"] = target
+        rc, out, err = sh(cmd, cwd=HARNESS, timeout=3000, env=env)
         if rc != 0:
             self.log("cargo build FAILED:\n" + err[-3000:])
             self.broken.append(f"harness {binname} does not build against /repo's current tree: " + " | ".join(re.findall(r"^error.*", err, re.M)[:3]))
             return None
-        return os.path.join(CARGO_TARGET, "release" if release else "debug", binname)
+        return os.path.join(target, "release" if release else "debug", binname)
 
     def harness(self, exe, args, inp=None, timeout=3000, env=None):
         e = dict(ENV); e["VERIF_SEED"] = str(self.seed); e["VERIF_TIER"] = self.tier
